@@ -22,7 +22,7 @@ const c18Tick = 1953125 * time.Nanosecond // 2^-9 s
 
 func genC18(rng *rand.Rand, n int, emit func(Case), dist map[string]int) {
 	base := time.Date(2024, 1, 1, 0, 0, 0, 0, time.UTC)
-	ids := []string{"10.0.0.1", "10.0.0.2", "2001:db8::1", "2001:DB8::1", "key-A", "key-a"}
+	ids := []string{"10.0.0.1", "10.0.0.2", "2001:db8::1", "2001:DB8::1", "key-A", "key-a", ""} // ("": the optional header the extractor reads is absent)
 	for it := 0; it < n; it++ {
 		// rate = A tokens per Bt ticks (512 ticks per second): integers, and 0.5 / 1.5 / 2.5 per second as x/1024 ticks
 		rt := [][2]int{{1, 512}, {2, 512}, {4, 512}, {8, 512}, {16, 512}, {64, 512}, {1, 1024}, {3, 1024}, {5, 1024}}[rng.Intn(9)]
